@@ -1159,6 +1159,30 @@ func runCutSplit(p *Program, r *RuleResult) {
 			n++
 			construct := fmt.Sprintf("cut-split#%d", n)
 			args := call.Common().Args
+			// a method of the form that wraps the splitter (split + re-adding the reused name):
+			// judge the arguments the wrapper hands to the splitter, in the caller's terms
+			if inner := wrappedSplit(p, sc); inner != nil {
+				var mapped []ssa.Value
+				okMap := true
+				for _, a := range inner.Common().Args {
+					var m2 ssa.Value
+					if isNilConst(a) {
+						m2 = a
+					}
+					for i, prm := range sc.Params {
+						if a == ssa.Value(prm) && i < len(args) {
+							m2 = args[i]
+						}
+					}
+					if m2 == nil {
+						okMap = false
+					}
+					mapped = append(mapped, m2)
+				}
+				if okMap {
+					args = mapped
+				}
+			}
 			var left, right ssa.Value
 			for _, u := range *call.Referrers() {
 				if ex, ok := u.(*ssa.Extract); ok {
@@ -1234,6 +1258,52 @@ func runCutSplit(p *Program, r *RuleResult) {
 			}
 		}
 	}
+}
+
+// wrappedSplit: fn returns, as its first two results, the two halves produced by its single
+// call of a context splitter (a function with results (ctx, ctx, _)); returns that call.
+func wrappedSplit(p *Program, fn *ssa.Function) *ssa.Call {
+	if fn == nil || fn.Blocks == nil || !p.isFirstParty(fn) {
+		return nil
+	}
+	var inner *ssa.Call
+	for _, c := range p.callsIn(fn) {
+		call, ok := c.(*ssa.Call)
+		if !ok {
+			continue
+		}
+		sc := call.Common().StaticCallee()
+		if sc == nil || sc == fn || sc.Signature.Results().Len() != 3 || !isCtxType(sc.Signature.Results().At(0).Type()) || !isCtxType(sc.Signature.Results().At(1).Type()) {
+			continue
+		}
+		if inner != nil {
+			return nil
+		}
+		inner = call
+	}
+	if inner == nil {
+		return nil
+	}
+	// every return hands back nil halves (error) or the halves of that call
+	for _, b := range fn.Blocks {
+		for _, in := range b.Instrs {
+			ret, ok := in.(*ssa.Return)
+			if !ok || len(ret.Results) != 3 {
+				continue
+			}
+			for i := 0; i < 2; i++ {
+				v := ret.Results[i]
+				if isNilConst(v) {
+					continue
+				}
+				ex, ok := origin(v).(*ssa.Extract)
+				if !ok || ex.Tuple != ssa.Value(inner) || ex.Index != i {
+					return nil
+				}
+			}
+		}
+	}
+	return inner
 }
 
 // R-TYPE-RECORDED (C01, C02, C13): the interpreter reads the session type the typechecker
